@@ -322,6 +322,17 @@ theorem invalid_input_4xx (e : Endpoint) (f : Facts) (hov : f.declaredOversize =
     | ready =>
       rcases hbody with hb | hb <;> simp [handler, requireIndex, addWork, hi, hb, errResp]
 
+/-- `parse_json` flattens every extractor rejection to `400 invalid_request`: the status axum
+itself attaches to the rejection (415 unsupported media type, 422 unprocessable, 413 length
+limit) never reaches the client -/
+theorem parse_json_flattens (e : Endpoint) (f : Facts) (r : Rejection)
+    (he : e = .init ∨ e = .bulk ∨ e = .delete ∨ e = .search)
+    (hov : f.declaredOversize = false) (hp : f.payload = .rejected r) :
+    respond (.hit e) f = errResp 400 .invalidRequest := by
+  unfold respond
+  simp only [hov, Bool.false_eq_true, if_false]
+  rcases he with he | he | he | he <;> subst he <;> simp [handler, jsonExtract, hp]
+
 /-- a core error (not a panic) is reported with the error body and the endpoint's status:
 400 for search/init/add/bulk/delete, 500 for commit/refresh/compact -/
 theorem core_error_status (e : Endpoint) (f : Facts) (hov : f.declaredOversize = false)
